@@ -7,11 +7,15 @@
   also runs the same family on the C implementation itself.
 -/
 import AL.Properties.SweepDefs
+import AL.Spec.X86FamiliesExtra
 namespace AL.Properties.Sweep
 open AL.Spec.X86
 
 /-- **C05, every instance**: each relative branch x {none, short, long} x all rel8 values and the rel32
     boundary values x synonyms; rejected exactly where `short` / rel8-only cannot reach -/
 theorem c05_sweep : sweep [14, 0] famC05 = true := by native_decide
+
+/-- the same for literals written with more digits than a 64-bit number needs (family `famC05x`, AL/Spec/X86FamiliesExtra.lean) -/
+theorem c05_sweep_padded : sweep [14, 0] famC05x = true := by native_decide
 
 end AL.Properties.Sweep
